@@ -1096,7 +1096,12 @@ func (vr *voterecords) stuckVoteproof(
 		return false
 	})
 
-	if len(filteredvoted) < 1 {
+	switch {
+	case len(filteredvoted) < 1:
+		return vp, nil
+	case len(filteredvoted)+len(expels) != suf.Len():
+		// NOTE every node, not expelled should be voted; if not,
+		// isaac.IsValidVoteproofWithSuffrage refuses the stuck voteproof.
 		return vp, nil
 	}
 
